@@ -102,10 +102,12 @@ class MPFixedFormat(OrdinalFormat):
 
         offset = x.exp - self.expmin
         if offset > 0:
-            c = x.c >> offset
+            # coarser spelling: the digits down to `expmin` are zeros to add
+            c = x.c << offset
             exp = x.exp - offset
         elif offset < 0:
-            c = x.c << -offset
+            # finer spelling of a representable value: its extra digits are zeros
+            c = x.c >> -offset
             exp = x.exp - offset
         else:
             c = x.c
